@@ -31,7 +31,7 @@ def generate(rng, tier) -> dict:
     nbits = rng.choice([8, 8, 4])
     nsblk = rng.choice([4, 8, 16, 32, rng.randrange(4, 33, 2)])
     nsub = rng.randint(2, 5)
-    nchans = rng.choice([1, 2, 3, 4, 8]) if nbits == 8 else rng.choice([2, 4, 8])
+    nchans = rng.choice([1, 2, 3, 4, 8]) if nbits == 8 else rng.choice([2, 4, 8])  # 1 channel: unreadable on the pinned tree (no channel spacing), excluded like npol 1/2
     pol, npol = rng.choice(LAYOUTS)
     N = nsblk * nsub
     ops = []
@@ -60,6 +60,8 @@ def fixup(sc):
     sc["nsub"] = max(1, sc["nsub"])
     sc["nsblk"] = max(4, sc["nsblk"] // 2 * 2)
     sc["nchans"] = max(1, sc["nchans"])
+    if sc["nbits"] not in (4, 8):
+        sc["nbits"] = 8
     if sc["nbits"] == 4 and sc["nchans"] % 2:
         sc["nchans"] += 1
     N = sc["nsblk"] * sc["nsub"]
@@ -93,6 +95,8 @@ def write_psrfits(path, sc):
     nbits, nsblk, nsub, nchans, npol, pol = sc["nbits"], sc["nsblk"], sc["nsub"], sc["nchans"], sc["npol"], sc["pol"]
     N = nsblk * nsub
     top = 16 if nbits == 4 else 200
+    if sc.get("gzip"):
+        top = 2  # low-entropy samples: the compressed file is much smaller than the table it holds
     d = r.integers(0, top, size=(N, npol, nchans)).astype(np.uint8)
     foff = 1.0 if sc["ascending"] else -1.0
     fch1 = 1400.0 if sc["ascending"] else 1400.0 + (nchans - 1)
@@ -195,6 +199,11 @@ def execute(sc, ctx) -> None:
             reader = PFITSReader(path)
             whole = np.asarray(reader.read_block(0, N).data)
         except Exception as e:  # noqa: BLE001 - "a file that the reader opens and can read in full"
+            if sc["npol"] == 4 and sc["nchans"] >= 2 and sc["nbits"] in (4, 8):
+                # four-polarisation layouts ARE readable by this reader: failing on one is not an excluded
+                # layout but the reader refusing (or mis-sizing) a file it is documented to read
+                raise Violation("C18/open/reader-cannot-read-a-supported-layout", repr(e)[:300],
+                                {"api": "PFITSReader", "pol": sc["pol"], "nbits": sc["nbits"], "gzip": bool(sc.get("gzip"))}) from None
             ctx.observations["layout-excluded:" + sc["pol"]] += 1
             raise Rejected(f"layout {sc['pol']} cannot be read in full: {e!r}"[:120]) from None
         hdr = reader.header
